@@ -2,7 +2,8 @@
    Elements are Z (every Go integer type is a sub-range; the comparator theorems hold on all of Z), strings are
    byte lists, [less] is an arbitrary boolean relation unless hypotheses are stated. *)
 From VF Require Import C10.Model C10.SortModel C10.Spec C10.ProofsCmp C10.ProofsSearch C10.ProofsSpec C10.ProofsPerm
-  C10.ProofsInsertion C10.ProofsHeap C10.ProofsPartition C10.ProofsFrame C10.ProofsPartial C10.ProofsPivot C10.ProofsMain C10.Check.
+  C10.ProofsInsertion C10.ProofsHeap C10.ProofsPartition C10.ProofsFrame C10.ProofsPartial C10.ProofsPivot C10.ProofsMain
+  C10.ProofsStableBase C10.ProofsRotate C10.ProofsSymMerge C10.ProofsStable C10.Check.
 From Coq Require Import QArith Qabs Sorted.
 Local Open Scope Z_scope.
 
@@ -157,6 +158,39 @@ Proof.
   intros less s a b Hab Hb. split; [now apply choose_pivot_spec|]. split; [now apply break_patterns_Fr|now apply reverse_range_Fr].
 Qed.
 
+(* FULL STATEMENT for SortStableFunc (insertionSort blocks of 20 + symMerge rounds): for every strict weak order and
+   EVERY input list shorter than 2^63 (Go's int; the model's doubling / recursion-depth fuel is 64) the model finishes
+   without index panic, the result is sorted, a permutation of the input, and STABLE: for every element x the
+   elements equivalent to x (neither less than the other) appear in the output in their input order. *)
+Theorem C10_stable_sorted : forall less, StrictWeakOrder less -> forall l,
+  Z.of_nat (length l) < 2 ^ 63 ->
+  let s := sort_stable_func less l in
+  sbad s = false /\ SortedBy less (sd s) /\ Permutation l (sd s) /\
+  (forall x, filter (eqv less x) (sd s) = filter (eqv less x) l).
+Proof. intros less H l. exact (sort_stable_func_sorted less (swo_asym less H) (swo_negtrans less H) l). Qed.
+(* the same in the vocabulary of the verified checker C10_stable_checker (order on key = value >> 20): the model's
+   output satisfies Spec.Stable for every input, not only inputs whose tags increase *)
+Theorem C10_stable_key : forall l, Z.of_nat (length l) < 2 ^ 63 ->
+  let s := sort_stable_func lt_key l in
+  sbad s = false /\ SortedBy lt_key (sd s) /\ Stable l (sd s).
+Proof.
+  intros l Hl. assert (H : StrictWeakOrder lt_key).
+  { constructor; unfold lt_key; intros; rewrite ?Z.ltb_lt, ?Z.ltb_ge in *; lia. }
+  destruct (sort_stable_func_sorted lt_key (swo_asym _ H) (swo_negtrans _ H) l Hl) as (B & S & P & St).
+  split; [exact B|]. split; [exact S|]. now apply StablePerm_key.
+Qed.
+(* symMerge on any two adjacent sorted runs: sorted, in place, stable, no panic, fuel f enough for b - a <= 2^f *)
+Theorem C10_symmerge : forall less, StrictWeakOrder less -> forall fuel s a m b,
+  Z.of_nat (b - a) <= 2 ^ Z.of_nat fuel -> (a < m)%nat -> (m < b)%nat -> (b <= length (sd s))%nat ->
+  sorted_range less (sd s) a m -> sorted_range less (sd s) m b ->
+  let s' := sym_merge less fuel s a m b in
+  sorted_range less (sd s') a b /\ Fr a b s s' /\ StablePerm less (sd s) (sd s').
+Proof. intros less H. exact (sym_merge_spec less (swo_asym less H) (swo_negtrans less H)). Qed.
+(* rotate (swapRange block swap): data[a:m] and data[m:b] exchanged, nothing else touched, no panic, fuel suffices *)
+Theorem C10_rotate : forall s a m b, (a < m)%nat -> (m < b)%nat -> (b <= length (sd s))%nat ->
+  let s' := rotate s a m b in Rot (sd s) (sd s') a m b /\ Fr a b s s'.
+Proof. exact rotate_spec. Qed.
+
 (* ---------- the verified output checkers that decide every observed sort result ---------- *)
 Theorem C10_sorted_perm_checker : forall less xs ys,
   (forall a b c, less b a = false -> less c b = false -> less c a = false) ->
@@ -193,6 +227,17 @@ Example C10_swo_nonvacuous : StrictWeakOrder lt_full /\ StrictWeakOrder lt_key.
 Proof.
   split; constructor; unfold lt_full, lt_key; intros; rewrite ?Z.ltb_lt, ?Z.ltb_ge in *; lia.
 Qed.
+(* 100 tagged elements with 5 distinct keys: the stable model output is what the verified checker accepts, and the
+   run goes through the rotation branch of symMerge; 100 elements in a pattern that sends pdqsort through partition *)
+Definition ex_tagged : list Z := map (fun i => ((Z.of_nat i * 7) mod 5) * 2 ^ 20 + Z.of_nat i) (seq 0 100).
+Example C10_sorts_nonvacuous :
+  tags_increasing_b ex_tagged = true /\
+  stable_sorted_b ex_tagged (sd (sort_stable_func lt_key ex_tagged)) = true /\
+  sbad (sort_stable_func lt_key ex_tagged) = false /\
+  Z.testbit (spath (sort_stable_func lt_key ex_tagged)) P_symmerge_rotate = true /\
+  sorted_perm_b lt_key ex_tagged (sd (sort_func lt_key ex_tagged)) = true /\
+  Z.testbit (spath (sort_func lt_key ex_tagged)) P_insertion = true.
+Proof. vm_compute. repeat split. Qed.
 
 Print Assumptions C10_cmp_int.
 Print Assumptions C10_cmp_int_laws.
@@ -216,6 +261,10 @@ Print Assumptions C10_sort_sorted.
 Print Assumptions C10_pdqsort_range.
 Print Assumptions C10_partial_insertion.
 Print Assumptions C10_pivot_in_range.
+Print Assumptions C10_stable_sorted.
+Print Assumptions C10_stable_key.
+Print Assumptions C10_symmerge.
+Print Assumptions C10_rotate.
 Print Assumptions C10_sorted_perm_checker.
 Print Assumptions C10_checker_orders.
 Print Assumptions C10_stable_checker.
